@@ -59,7 +59,7 @@ DIVERGED = Fraction(1, 10**9)  # add_liquidity_by_value results further apart th
 
 
 def plan(tier, seed):
-    n = 24 if tier == "quick" else 1900
+    n = 120 if tier == "quick" else 1900
     return [{"shard": i, "cases": n} for i in range(NSHARDS)]
 
 
